@@ -495,6 +495,71 @@ def long_reverse_complement():
     return fn
 
 
+def complement_context_free(alpha_idx):
+    """the complement of a letter does not depend on the OTHER letters of the sequence: reverse complement of every 3-letter text over an alphabet is the
+    letter-by-letter table image reversed (an RNA-looking text - U and no T - is complemented with the same table as any other)"""
+
+    def fn(i, j, k):
+        i, j, k = concretize(i, j, k)
+        with untraced():
+            from Bio.Data import IUPACData
+            from inscripta.biocantor.sequence import Sequence
+            from inscripta.biocantor.sequence.alphabet import ALPHABET_TO_NUCLEOTIDE_COMPLEMENT
+
+            refc = dict(IUPACData.ambiguous_dna_complement)
+            refc.update({"U": "A", "-": "-"})
+            alpha = sorted(ALPHABET_TO_NUCLEOTIDE_COMPLEMENT, key=lambda x: x.name)[alpha_idx]
+            letters = sorted(set(alpha.value))
+            if max(i, j, k) >= len(letters):
+                return True
+            ok = True
+            for text in (letters[i] + letters[j] + letters[k], (letters[i] + letters[j] + letters[k]).lower(), letters[i] + letters[j].lower() + letters[k] + letters[i]):
+                exp = "".join((refc[ch.upper()].lower() if ch.islower() else refc[ch.upper()]) for ch in reversed(text))
+                ok = ok and str(Sequence(text, alpha).reverse_complement()) == exp
+            return ok
+
+    return fn
+
+
+def enum_membership():
+    """membership tests and lookups of the enumerations agree: has_name(x) exactly when Enum[x] succeeds, has_value(x) exactly when Enum(x) succeeds, for every
+    member name, alias, value and near-miss spelling (hyphen / underscore / case variants)"""
+
+    def fn(e, n, v):
+        e, n, v = concretize(e, n, v)
+        with untraced():
+            from inscripta.biocantor.gene.biotype import Biotype
+            from inscripta.biocantor.gene.cds_frame import CDSFrame, CDSPhase
+            from inscripta.biocantor.location.strand import Strand
+            from inscripta.biocantor.parent import SequenceType
+            from inscripta.biocantor.sequence.alphabet import Alphabet
+
+            enum = [Biotype, CDSFrame, CDSPhase, Strand, SequenceType, Alphabet][e]
+            names = sorted(enum.__members__)
+            base = names[n % len(names)]
+            cand = [base, base.replace("_", "-"), base.replace("-", "_"), base.lower(), base.upper(), base + "x", base.replace("_", "")][v]
+            ok = True
+            if hasattr(enum, "has_name"):
+                try:
+                    enum[cand]
+                    real = True
+                except KeyError:
+                    real = False
+                ok = ok and enum.has_name(cand) is real
+            if hasattr(enum, "has_value"):
+                vals = [m.value for m in enum]
+                for x in (cand, vals[n % len(vals)]):
+                    try:
+                        enum(x)
+                        real = True
+                    except ValueError:
+                        real = False
+                    ok = ok and enum.has_value(x) is real
+            return ok
+
+    return fn
+
+
 def obligations(tier):
     out = [
         Obl("tables_codons", _smt_tables, {}, None, kind="smt", twin=False, cost=20, concrete=_tables_concrete,
@@ -530,6 +595,18 @@ def obligations(tier):
                        desc="a held strict Codon starting with %s keeps every answer (translate, predicates, synonyms, str, hash, identity) after ANY other codon over "
                             "ACGTU (upper or lower case) is constructed: the singleton table never aliases two spellings" % "ACGT"[first],
                        bounds="16 held codons x 125 constructed codons%s (closed by the solver)" % ("" if tier == "quick" else " x 2 cases"), examples=[dict(j=1, k=2, a=0, b=4, c=2, low=False)]))
+    for a in range(5):
+        out.append(Obl("complement_context_free_%d" % a, complement_context_free(a), dict(i=int, j=int, k=int),
+                       lambda i, j, k: 0 <= i and i <= 16 and 0 <= j and j <= 16 and 0 <= k and k <= 16 and (tier != "quick" or (i + 2 * j + 3 * k) % 5 == 0), budget=900, cost=40,
+                       desc="reverse complement of every 3-letter text (upper, lower and mixed case) over nucleotide alphabet #%d equals the letter-by-letter IUPAC "
+                            "complement reversed: the complement of a letter never depends on which other letters are present (e.g. U without T)" % a,
+                       bounds="up to 17^3 triplets%s x 3 case patterns (closed by the solver)" % (" (a fifth in the quick tier)" if tier == "quick" else ""),
+                       examples=[dict(i=0, j=1, k=1), dict(i=5, j=0, k=0)]))
+    out.append(Obl("enum_membership_agrees_with_lookup", enum_membership(), dict(e=int, n=int, v=int),
+                   lambda e, n, v: 0 <= e and e <= 5 and 0 <= n and n <= (40 if tier == "quick" else 90) and 0 <= v and v <= 6, budget=900, cost=40,
+                   desc="has_name / has_value of Biotype, CDSFrame, CDSPhase, Strand, SequenceType, Alphabet answer True exactly when Enum[name] / Enum(value) succeeds, for "
+                        "every member name, alias and near-miss spelling (hyphen / underscore / case / suffix variants)",
+                   bounds="6 enumerations x up to %d names x 7 spellings (closed by the solver)" % (41 if tier == "quick" else 91), examples=[dict(e=0, n=3, v=1)]))
     out.append(Obl("codon_registry_under_pressure", registry_pressure(), dict(n_bad=int, probe=int),
                    lambda n_bad, probe: 0 <= n_bad and n_bad <= 12 and 0 <= probe and probe <= (1 if tier == "quick" else 7), budget=900, cost=60,
                    desc="after all 4096 IUPAC triplets and 0..12 rejected strings plus one further unseen string have gone through Codon(), the start/stop tables, "
